@@ -347,7 +347,16 @@ def handle (cmd : String) (args : List String) : Option String :=
         (acc.1 ++ [acc.2.take n], acc.2.drop n)) ([], devs)).1
       some (match ppf2DPieces true gc recSize cd2Size rows with
         | none => "none"
-        | some ps => joinNats (ps.map (·.2.1)) ++ " | " ++ joinNats (ps.map (·.2.2)))
+        | some ps =>
+          -- per piece also: emitted coverage / class-def-1 bytes and the loop's two estimates
+          let tbl : PairPos2 Nat := ⟨c, cd, .fmt2 [], []⟩
+          let act := ps.map (fun p => match splitOffPpf2 tbl p.1 p.2.1 with
+            | some t => (t.cov.byteSize, t.classDef1.byteSize)
+            | none => (0, 0))
+          joinNats (ps.map (·.2.1)) ++ " | " ++ joinNats (ps.map (·.2.2)) ++ " | " ++
+            joinNats (act.map (·.1)) ++ " | " ++ joinNats (act.map (·.2)) ++ " | " ++
+            joinNats (ps.map (fun p => ppf2CovEstimate ⟨gc⟩ p.1 p.2.1)) ++ " | " ++
+            joinNats (ps.map (fun p => ppf2Cd1Estimate ⟨gc⟩ p.1 p.2.1)))
     | _, _ => none
   | "mb.split", some (mctbl :: [classCount] :: pts :: marks :: rows) =>
     -- `split_off_mark_pos` for every range of the given split points; mark record `i` = (class,
